@@ -14,7 +14,7 @@ from . import findings, tlcrun
 from .tlcrun import OUT
 
 ROOT = os.path.normpath(os.path.join(os.path.dirname(os.path.abspath(__file__)), ".."))
-EVID = os.path.join(ROOT, "evidence")
+EVID = os.environ.get("VERIF_EVIDENCE_DIR") or os.path.join(ROOT, "evidence")     # (seed regression runs write elsewhere)
 PY = "/venv/bin/python"
 
 
